@@ -21,7 +21,7 @@ SITES = 'ABCDE'
 
 def mesh_topology(n, edges, lengths='equal', style='plain', trx=True):
     """n ROADM sites A.., undirected edges (i, j) -> two directed chains.  lengths: 'equal' (ties), 'distinct', 'shortcut'
-    (the direct link of the first edge is much longer).  style: 'plain' fibre, 'ila' (fibre, amplifier, fibre),
+    (the direct link of the first edge is much longer), 'tie_minus' / 'tie_plus' (near ties between split fibres).  style: 'plain' fibre, 'ila' (fibre, amplifier, fibre),
     'fused' (fibre, fused, fibre), 'mixed' (cycles through them)."""
     sites = list(SITES[:n])
     links = []
@@ -30,8 +30,13 @@ def mesh_topology(n, edges, lengths='equal', style='plain', trx=True):
             L = 80.0
         elif lengths == 'distinct':
             L = 50.0 + 13.0 * k + 7.0 * ((i * 3 + j) % 4)
+        elif lengths in ('tie_minus', 'tie_plus'):
+            # a two-hop detour is 1 km shorter / longer than the direct first link, and every fibre (or half link) is split by
+            # auto-design: a route metric that loses or adds a span length anywhere flips the choice
+            L = 320.0 if k == 0 else (159.5 if lengths == 'tie_minus' else 160.5)
         else:
-            L = 300.0 if k == 0 else 60.0 + 5.0 * k
+            # long enough that each half of an 'ila' / 'fused' link is itself split by auto-design (> 150 km)
+            L = 340.0 if k == 0 else 60.0 + 5.0 * k
         st = style if style != 'mixed' else ['plain', 'ila', 'fused'][k % 3]
 
         def ch(length):
